@@ -61,7 +61,7 @@ func projSource(r *rand.Rand) string {
 	case 13:
 		// an assembly file of more than a kilobyte
 		var sb strings.Builder
-		for i := 0; i < 110; i++ {
+		for i := 0; i < 170; i++ {
 			sb.WriteString(fmt.Sprintf("%s%03d\n", w(), i))
 		}
 		return sb.String()
